@@ -712,6 +712,10 @@ pub fn ver_frame_strategy() -> impl Strategy<Value = MutCase> {
         3 => "[0-9]{1,3}\\.[0-9]{1,4}[A-Za-z]?[0-9]{0,3}",
         2 => "[0-9.]{0,6}[A-Za-z][0-9²³¹٣½①]{0,3}",
         2 => "[0-9.A-Za-z²٣½ ]{0,8}",
+        // texts made of multi-byte characters only, behind 0..3 ASCII characters: wherever a byte offset falls (an error text
+        // that echoes the field and is cut somewhere), it falls inside a character more often than not
+        3 => "[0-9.A-Za-z]{0,3}[é€٣½²ß𝄞😀]{1,4}",
+        1 => "[0-9]{1,2}\\.[0-9][A-Za-z][é€𝄞]{1,2}",
     ];
     (any::<bool>(), text, any::<u8>(), "[A-Z0-9]{0,6}").prop_map(|(compressed, t, insimver, product)| {
         let mut v = t.into_bytes();
